@@ -362,6 +362,8 @@ def d6(ctx, prog, kernel):
 
 
 def run(ctx, prog):
+    from .. import universe as _uni0
+    _uni0.inline_base_entry_points(ctx, prog)
     ctx.rule('C09-D5', 'stop-request typestate: the accumulator clears its stop flag on every path before entering the batch loop')
     ctx.rule('C09-D1', 'the two accumulation threads share no writable object: distinct accumulators, stores only to self/locals, staticmethod kernel bound to instance arrays, shared container code writes no global/class state')
     ctx.rule('C09-D2', 'the kernel\'s prange stores are disjoint and it casts to the precision before reducing')
